@@ -78,6 +78,7 @@ type recorder struct {
 	mu      sync.Mutex
 	events  []recEvent
 	changed chan struct{}
+	started map[int64]bool // collections the "manager" replicates (StartReadCollection without a later StopReadCollection)
 }
 
 func newRecorder() *recorder { return &recorder{changed: make(chan struct{}, 1)} }
@@ -106,15 +107,34 @@ func (r *recorder) AddDroppedCollection(ids []int64) {
 func (r *recorder) AddDroppedPartition(ids []int64) {
 	r.add(recEvent{Call: "AddDroppedPartition", IDs: append([]int64(nil), ids...)})
 }
+
+// dupStartErr is what the REAL channel manager answers to a second StartReadCollection for a collection it already
+// replicates (after its retries; observed by the reader rig's profile C13D, counter manager_duplicate_start_answered_with_error):
+// the recorder mirrors that, so that the effect of a double notification on the reader becomes visible here.
+const dupStartErr = "the collection has been replicated, wait it [collection name: %s] to drop..."
+
 func (r *recorder) StartReadCollection(ctx context.Context, db *model.DatabaseInfo, info *pb.CollectionInfo, seekPositions []*msgpb.MsgPosition, channelStartTsMap map[string]uint64) error {
 	e := recEvent{Call: "StartReadCollection", Coll: info.GetID(), Name: info.GetSchema().GetName(), State: info.GetState().String()}
 	if db != nil {
 		e.DB, e.DBDrop = db.Name, db.Dropped
 	}
+	r.mu.Lock()
+	if r.started == nil {
+		r.started = map[int64]bool{}
+	}
+	dup := r.started[info.GetID()]
+	r.started[info.GetID()] = true
+	r.mu.Unlock()
 	r.add(e)
+	if dup {
+		return fmt.Errorf(dupStartErr, info.GetSchema().GetName())
+	}
 	return nil
 }
 func (r *recorder) StopReadCollection(ctx context.Context, info *pb.CollectionInfo) error {
+	r.mu.Lock()
+	delete(r.started, info.GetID())
+	r.mu.Unlock()
 	r.add(recEvent{Call: "StopReadCollection", Coll: info.GetID()})
 	return nil
 }
@@ -298,19 +318,19 @@ func c13Account(run *vf.Run, p c13Plan, r *c13Result) {
 // c13Exec is the state of one running case: model, etcd client, the targets the script refers to.
 type c13Exec struct {
 	sibling bool // a second, non-selecting task shares the MetaOp and has started the watch already
-	plan   c13Plan
-	cat    *catalog.Catalog
-	box    *etcdbox.Box
-	rnd    func(int) int
-	ctx    context.Context
-	tgt    map[int]*c13Target // write index -> prepared target
-	errs   []string
-	done   map[int]bool
-	mu     sync.Mutex
-	sentC  *catalog.Coll
-	sentP  *catalog.Part
-	onlyW  map[int64]bool // collection ids that reached Created at a step >= 5 (only the watch can deliver them)
-	primAt int
+	plan    c13Plan
+	cat     *catalog.Catalog
+	box     *etcdbox.Box
+	rnd     func(int) int
+	ctx     context.Context
+	tgt     map[int]*c13Target // write index -> prepared target
+	errs    []string
+	done    map[int]bool
+	mu      sync.Mutex
+	sentC   *catalog.Coll
+	sentP   *catalog.Part
+	onlyW   map[int64]bool // collection ids that reached Created at a step >= 5 (only the watch can deliver them)
+	primAt  int
 }
 
 func (x *c13Exec) put(ps ...catalog.Put) {
@@ -554,9 +574,11 @@ func c13Case(run *vf.Run, box *etcdbox.Box, plan c13Plan, attempt int) *c13Resul
 	emu.Lock()
 	rerrs := append([]string(nil), readerErrs...)
 	emu.Unlock()
-	if len(rerrs) > 0 {
-		res.inconclusive = "the reader reported an error: " + rerrs[0]
-		return res
+	for _, e := range rerrs {
+		if !strings.Contains(e, "the collection has been replicated, wait it") {
+			res.inconclusive = "the reader reported an error: " + e
+			return res
+		}
 	}
 	mkReplay := func(extra map[string]any) map[string]any {
 		m := map[string]any{"case": plan.Idx, "plan": plan, "catalog": cat.Summary(), "calls": rec.snapshot(), "metaop_call_order": order,
@@ -641,6 +663,17 @@ func c13Case(run *vf.Run, box *etcdbox.Box, plan c13Plan, attempt int) *c13Resul
 	close(release)
 
 	c13Oracle(res, plan, x, dec, rec.snapshot(), mkReplay)
+	// "being notified twice about the same object has no further effect": the channel manager answers a second start of
+	// a collection it already replicates with an error, and an error on the reader's error channel pauses the task
+	emu.Lock()
+	finalErrs := append([]string(nil), readerErrs...)
+	emu.Unlock()
+	for _, e := range finalErrs {
+		if strings.Contains(e, "the collection has been replicated, wait it") {
+			res.violations = append(res.violations, vf.Violation{Key: "C13/notified-twice-reader-reports-an-error", Desc: fmt.Sprintf("case %d: a collection was announced to the task twice the second StartReadCollection was handed to the channel manager, whose answer for a collection it already replicates (%q) went to the reader's error channel: the server pauses the task for that", plan.Idx, e), Replay: mkReplay(nil)})
+			break
+		}
+	}
 	if rec2 != nil {
 		for _, e := range rec2.snapshot() {
 			if e.Call == "StartReadCollection" || e.Call == "AddPartition" {
